@@ -626,8 +626,10 @@ def generate_numpy_like(expr: Array | Mapping[str, Array] | DictOfNamedArrays,
                   args=ast.arguments(
                       args=[],
                       posonlyargs=[],
+                      # sorted: arg_names is a set, the emitted source must
+                      # not depend on its (hash-seed dependent) order
                       kwonlyargs=[ast.arg(arg=name)
-                                  for name in cgen_mapper.arg_names],
+                                  for name in sorted(cgen_mapper.arg_names)],
                       kw_defaults=[None for _ in cgen_mapper.arg_names],
                       defaults=[]),
                   body=lines,
